@@ -405,7 +405,7 @@ pub fn c18(ctx: &Ctx) {
         }
     }
     // purity: the same arguments evaluated in another order give bit-identical results
-    {
+    if let Err(msg) = ev::guarded(|| {
         let mut rng2 = Rng::new(ctx.seed, 0x0C18_9999);
         let xs: Vec<(f32, f32)> = (0..20_000).map(|i| (if i % 2 == 0 { rng2.unit() as f32 } else { f32::from_bits(rng2.below(0x7F00_0000) as u32 + 0x0080_0000) }, rng2.pick(&LIB_EXPONENTS))).collect();
         let fwd: Vec<[u32; 3]> = xs.iter().map(|(x, y)| [powf(*x, *y).to_bits(), expf(*x).to_bits(), cbrtf(*x).to_bits()]).collect();
@@ -416,8 +416,10 @@ pub fn c18(ctx: &Ctx) {
         if let Some(i) = (0..xs.len()).find(|&i| fwd[i] != rev[i] || fwd[i] != twice[i]) {
             ev::violation("C18|order-dependent", format!("powf/expf/cbrtf({:e}, {:e}) returns different bits depending on the calls made before it", xs[i].0, xs[i].1), J::obj().set("kind", "order").set("x_bits", xs[i].0.to_bits()).set("y_bits", xs[i].1.to_bits()));
         }
-        tot_calls += 3 * 60_000;
+    }) {
+        ev::violation(format!("C18|totality|order-pass|{}", ev::panic_site(&msg)), format!("a helper panicked on a finite argument during the call-order pass: {msg}"), J::obj().set("kind", "order"));
     }
+    tot_calls += 3 * 60_000;
     ev::observe("totality_calls", tot_calls);
     ev::observe("totality_calls_returned", nonpanic);
 
